@@ -446,6 +446,12 @@ theorem acc_fire (v : Variant) {s s' : S} {l : Label} (hi : Inv s.core) (ha : Ac
   | fatal =>
     obtain ⟨m, hm, hr⟩ := ha
     simp only [fire, Option.some.injEq] at h; subst h; exact ⟨m, hm, hr⟩
+  | giveUp =>
+    obtain ⟨m, hm, hr⟩ := ha
+    simp only [fire] at h
+    split at h
+    · simp only [Option.some.injEq] at h; subst h; exact ⟨m, hm, hr⟩
+    · cases h
   | post e =>
     obtain ⟨m, hm, hr⟩ := ha
     cases e <;> simp only [fire, postEv, Option.some.injEq, reduceCtorEq] at h <;> first | (subst h; exact ⟨m, hm, hr⟩) | cases h
